@@ -474,6 +474,10 @@ impl Interp {
                 let n = self.reps[r].doc.rollback();
                 if n > 0 {
                     self.class("rollback_nonempty");
+                    // objects created by the rolled back ops are gone and their ids will be reused,
+                    // possibly for an object of another type: forget them
+                    let reps = &self.reps;
+                    self.objs.retain(|(id, _)| reps.iter().any(|rp| rp.doc.object_type(id).is_ok()));
                 }
                 out.applied = true;
             }
